@@ -8,7 +8,7 @@
    transformation() followed by conversion_surface_params(). *)
 From Coq Require Import List ZArith Bool Reals Lra.
 From T4V Require Import Base.Scalar C04.Vec C04.Model C04.Spec C04.ProofsFrame C04.ProofsConvert
-  C04.ProofsQuad C04.ProofsSurf C04.ProofsMatrix C04.ProofsCard C04.ProofsTorus C04.ProofsMatrix5 C04.ProofsCompose C04.ProofsAdjust C04.ProofsTree.
+  C04.ProofsQuad C04.ProofsSurf C04.ProofsMatrix C04.ProofsCard C04.ProofsTorus C04.ProofsMatrix5 C04.ProofsCompose C04.ProofsComposeCex C04.ProofsAdjust C04.ProofsTree.
 Import ListNotations.
 Open Scope R_scope.
 
